@@ -5,6 +5,8 @@ go 1.25.6
 require github.com/bufbuild/protocompile v0.0.0
 
 require (
+	buf.build/gen/go/bufbuild/protodescriptor/protocolbuffers/go v1.36.11-20250109164928-1da0de137947.1 // indirect
+	buf.build/gen/go/bufbuild/protovalidate/protocolbuffers/go v1.36.11-20240920164238-5a7b106cbb87.1 // indirect
 	github.com/rivo/uniseg v0.4.7 // indirect
 	github.com/tidwall/btree v1.8.1 // indirect
 	golang.org/x/exp v0.0.0-20250911091902-df9299821621 // indirect
